@@ -189,14 +189,18 @@ func intersect[T constraints.Integer](intv Interval[T], inters []Interval[T]) ([
 
 	var cnt int
 	for _, inter := range inters {
-		cnt++
+		if intv.End() <= inter.Begin() {
+			break
+		}
+
+		// Only an interval which ends within intv cannot intersect any
+		// later interval, so only those are skipped next time.
+		if inter.End() <= intv.End() {
+			cnt++
+		}
 
 		if inter.End() <= intv.Begin() {
 			continue
-		}
-
-		if intv.End() <= inter.Begin() {
-			break
 		}
 
 		begin := max(intv.Begin(), inter.Begin())
@@ -204,7 +208,7 @@ func intersect[T constraints.Integer](intv Interval[T], inters []Interval[T]) ([
 		intvs = append(intvs, New(begin, end))
 	}
 
-	return intvs, cnt - 1
+	return intvs, cnt
 }
 
 func MapIntersect[T constraints.Integer](i1, i2 Map[T]) Map[T] {
